@@ -11,6 +11,20 @@ CLAIMED = {
           "Trusted: CrossHair 0.0.110 + z3 5.1.0; stubs for clock, password hash outcome, maildir, subprocess connection. Integer clock; counts <= 8 (quick) / 12 (thorough). Hash algorithms outside the claim."),
 }
 
+CLAIMED["C01"] = ("DESIGN.md §5 C01",
+    "CrossHair symbolic execution of the real command handlers/management task on a simulated event loop; client-view replay oracle; epoch induction from synchronised states",
+    "Bounded symbolic execution of the real do_* handlers, management_task, expunge/store/fetch/append/copy/check_new_msgs_and_flags for two sessions: from an arbitrary synchronised state one or two actor operations, one observer command, then flush; \\Deleted subset, idling bit, sequence numbers, UID sets and delivery counts are symbolic and every path is decided by z3. Each session's stream is replayed against a client-view model (EXISTS never shrinks, EXPUNGE/FETCH positions exist, no EXPUNGE inside non-UID FETCH/STORE/SEARCH, accepted numbers denote the view's UID, view == server list after flush). A flush re-establishes a synchronised state, so histories of any number of epochs are covered inductively.",
+    "Trusted: CrossHair+z3, FakeMH (stdlib MH contract), NullDB, SimLoop with FIFO scheduling (interleavings are C10), concrete sparse keys/UIDs. Bound: n=3 (quick) / n<=4 (thorough), 2 sessions, epoch of <=2 actor operations + 1 observer command.")
+CLAIMED["C06"] = ("DESIGN.md §5 C06",
+    "CrossHair symbolic execution of BaseClientHandler.command + every do_* handler on a simulated event loop with a virtual clock (watchdog-only completion is an observable state)",
+    "Every command kind (incl. UID forms) executed through the real command()/do_*/ready_and_okay/management_task with symbolic message numbers (0..n+1, s, s:*, *), mailbox target (existing, \\Noselect placeholder, child, missing) and session state; all paths decided by z3. Oracle: exactly one tagged OK/NO/BAD line, last, CRLF-terminated; loop status ok; virtual time consumed < 120 s watchdog; session answers a following NOOP unless BYE. IMAPClientProxy.run is driven with an unparsable command followed by NOOP.",
+    "Trusted: CrossHair+z3, FakeMH, real asimap.db.Database on in-memory sqlite with tokenised parameters, SimLoop FIFO. One command after direct state set-up (quick); with one preparatory command by another session (thorough). Message body rendering excluded (C07/C16).")
+
+CLAIMED["C08"] = ("DESIGN.md §5 C08",
+    "direct z3 regex-inclusion queries on the parser's token regexes (unbounded strings) + CrossHair-driven execution of the real IMAPClientCommand.parse on command skeletons with solver-enumerated holes",
+    "Layer 1: every tokenising regex of asimap.parse is translated from its re._parser tree to a z3 regex term at run time and its language compared by z3 with the RFC 3501 token language for strings of any length (no accepted token contains a terminator; quoted strings, literal prefixes, numbers, sets and dates accept only well-formed words); witnesses are replayed through the real pattern. Layer 2: the real parse() runs on skeletons of every argument kind (mailbox/INBOX, quoted escapes, literals by octet count, sequence sets, dates, date-times, sections/partials, STORE flags, search-key trees, LIST-EXTENDED options, trailing text); only BadCommand may escape and an accepted sentence must decode to the expected value with nothing left over.",
+    "Trusted: z3 string/regex theory, the re->z3 translation (validated against re on every witness), CrossHair. Layer 2 is bounded exploration: holes are realised, i.e. enumerated by the decision tree (quick: slices of each space; thorough: the full product listed in BOUNDS). Over-rejection of valid sentences is not a violation of the property as stated.")
+
 NOT_YET = {}
 
 def main():
